@@ -53,6 +53,9 @@ THOROUGH = QUICK + [
 def run(ctx):
     r = tlc_must_pass(TLA, os.path.join(SPEC, "MC_MarkOrder.cfg"), "mc_markorder", workers=4, timeout=900)
     ctx.add_mc(r, "MC_MarkOrder.cfg")
+    if ctx.tier == "thorough":
+        r = tlc_must_pass(TLA, os.path.join(SPEC, "MC_MarkOrder.thorough.cfg"), "mc_markorder", workers=8, timeout=1800)
+        ctx.add_mc(r, "MC_MarkOrder.thorough.cfg")
     r = tlc(TLA, os.path.join(SPEC, "MC_MarkOrder.neg.cfg"), "mc_markorder_neg", workers=4, timeout=600)
     if r.ok or "Converges" not in open(r.out_path, errors="replace").read():
         raise ToolError("negative configuration MC_MarkOrder.neg.cfg (mark before copy) was not refuted")
